@@ -499,22 +499,27 @@ func runQueue(c *vlib.Ctx, section string, idx int, r *vlib.Rand, kind string) {
 		wg.Wait()
 		c.SetAdd("producers", fmt.Sprint(nprod))
 	}
-	putSpan := time.Since(t0)
-	// an idle flush needs the queue to stay empty for the whole wait time; if everything was put
-	// sooner than that after the sender was created, no idle flush can separate two records
-	sc.earlyGuard = putSpan.Milliseconds()+50 < st.Wait
-	if sc.earlyGuard {
-		c.Count("queue_scenarios_early_flush_judged", 1)
-	}
 	if !waitUntil(watchdog, func() bool { return queueLen(s.Queue) == 0 }) {
 		c.Inconclusive(caseID, "the queue was not drained within the watchdog")
 		stop()
 		return
 	}
+	// A flush without a trigger between two records needs a GetTimeout(wait) call of the loop to
+	// time out, i.e. at least the wait time to pass after the sender was created. If the last
+	// record was taken from the queue sooner than that, no such flush can separate two records
+	// (load only makes this span longer: the judgement is then skipped, never wrong).
+	drained := time.Since(t0)
+	sc.earlyGuard = drained.Milliseconds()+50 < st.Wait
+	if sc.earlyGuard {
+		c.Count("queue_scenarios_early_flush_judged", 1)
+	}
+	tStop := time.Now()
 	if !stop() {
 		c.Inconclusive(caseID, "the background goroutine did not end within the watchdog after cancellation")
 		return
 	}
+	c.Max("max_drain_ms", drained.Milliseconds())
+	c.Max("max_stop_ms", time.Since(tStop).Milliseconds())
 	if client.expired() {
 		c.Inconclusive(caseID, "the blocked hand-over was not released within the watchdog")
 		return
